@@ -11,6 +11,15 @@ def proc_fn(x, fails=(), delays_ms=(0,)):
     return ('r', x)
 
 
+def proc_stamp(x, delay_ms=30):
+    """runs in a worker process of parmap(executor='process'): who ran the call and when (same machine clock for all processes)"""
+    import os
+
+    t0 = time.time()
+    time.sleep(delay_ms / 1000.0)
+    return (x, os.getpid(), t0, time.time())
+
+
 # ---------------------------------------------------------------- C17 real cases
 
 
